@@ -707,6 +707,35 @@ func (vc *VC) compileCall(env *Env, n *SNode) *Val {
 			return vc.boolVal(sEq(x.C[2], off64(1)))
 		}
 		return vc.load(env.heap, layoutOf(T), T, x.C[1], x.C[2])
+	case "isfunc":
+		// isfunc(x, f): function value x is the package-level function f (of the contract's package, or pkg.f)
+		need(2)
+		x := vc.compile(env, args[0])
+		if x.K != KFunc {
+			sfail("isfunc: first argument must be a function value")
+		}
+		var fn *ssa.Function
+		switch a := args[1]; a.Op {
+		case "id":
+			if env.pkg != nil {
+				fn = env.pkg.Func(a.Tok)
+			}
+		case "sel":
+			if a.Args[0].Op == "id" {
+				if p := vc.e.pkgByName(env.pkg, a.Args[0].Tok); p != nil {
+					fn = p.Func(a.Tok)
+				}
+			}
+		}
+		if fn == nil {
+			sfail("isfunc: unknown function %s", args[1])
+		}
+		id := vc.e.funcID(fn)
+		if vc.funcCands == nil {
+			vc.funcCands = map[int]*ssa.Function{}
+		}
+		vc.funcCands[id] = fn
+		return vc.boolVal(sEq(x.C[0], fmt.Sprint(id)))
 	case "isnil":
 		need(1)
 		return vc.boolVal(vc.isNil(vc.compile(env, args[0])))
